@@ -116,8 +116,11 @@ class H11Protocol:
                 self.connection.receive_data(event.data)
                 await self._handle_events()
         elif isinstance(event, Closed):
+            self.closed = True
             if self.stream is not None:
                 await self._close_stream()
+            # A reader waiting for the response to complete must leave
+            await self.can_read.set()
 
     async def stream_send(self, event: StreamEvent) -> None:
         if isinstance(event, Response):
